@@ -74,7 +74,7 @@ class RecDist:
 # ---------------------------------------------------------------------------------------
 # operations
 def sim_op(*theta, batch_size=1, random_state=None, meta=None, width=2, noise=0.4, node='S', coefs=None,
-           use_meta=False, delays=None):
+           use_meta=False, delays=None, layout=None):
     if delays and meta is not None:
         import time
         time.sleep(delays[meta['batch_index'] % len(delays)])
@@ -86,6 +86,8 @@ def sim_op(*theta, batch_size=1, random_state=None, meta=None, width=2, noise=0.
     if meta is not None:
         count(node, meta.get('batch_index'))
     _log(node, random_state, before, batch_size, meta)
+    if layout == 'F':
+        out = np.asfortranarray(out)     # same values, column-major memory layout (a simulator that returns x.T)
     return out
 
 
@@ -219,7 +221,7 @@ def build(spec, name='m', order=None, record_dists=True, sim_meta=False, delays=
     P = [made[p['name']] for p in spec['params']]
     s = spec['sim']
     fn = functools.partial(sim_op_meta if sim_meta else sim_op, width=s['width'], noise=s['noise'], coefs=s['coefs'], node='S',
-                           **({'delays': delays} if delays else {}))
+                           **({'delays': delays} if delays else {}), **({'layout': s['layout']} if s.get('layout') else {}))
     obs = np.asarray(spec['obs'], dtype=float)[None, :]
     OBS['bytes'] = obs.tobytes()
     S = elfi.Simulator(fn, *P, model=m, name='S', observed=obs)
